@@ -82,6 +82,10 @@ CLAIMED = {
     "C19": ("S", "A real MessagePassingComputation is driven through every history of up to 6 (8) operations among receive/post/pause/resume/start chosen by the engine; "
                  "handled == received and sent == posted, in order, exactly once, on every history.",
             "Histories are sequences of concrete operations (no numeric symbolic input); re-injected priority-19 messages are modelled as handled before newer ones (what C18 establishes for the agent queue).", "4/C19", S),
+    "C23": ("S", "oneagent, adhoc, heur_comhost and gh_cgdp distribute() executed on real computation graphs with symbolic capacities, per-node symbolic footprints, zero/positive symbolic hosting costs, "
+                 "symbolic routes, solver-chosen must_host hints and random draws; for every returned mapping z3 decides 'each computation once on a declared agent, hints honoured, footprint sums within capacity', "
+                 "any exception other than ImpossibleDistributionException is a violation. Two listed findings (hints ignored by three methods; adhoc must_host capacity).",
+            "Bounded: <= 3 computations, 1-2 agents in quick (3 in thorough), real-valued parameters in [0, 2^20], unit message load. The ILP methods' solve step cannot run (no GLPK); the distribute command (file I/O) is outside.", "4/C23", S),
     "C28": ("S", "For every shipped algorithm module the declared algo_params are read at run time and prepare_algo_params / AlgorithmDef.build_with_default_param / build_algo_def are executed on "
                  "every combination (in the bound) of given parameters and value kinds; the expected result is computed from the AlgoParameterDef tuples. The engine enumerates the space exhaustively.",
             "Discrete exploration with representative value pools per declared type (no symbolic strings: CrossHair was planned, Engine S's bounded choices are used instead, see DESIGN); <= 2 parameters given at once.", "4/C28", S),
